@@ -37,7 +37,7 @@ def run(ctx):
     rng = ctx.rng
     quick = ctx.tier == "quick"
     EXTRA = ["Si", "Se", "Fe", "Zr", "Xe", "Sn", "As"]
-    n = 3000 if quick else 25000
+    n = 3000 if quick else 100000
     for i in range(n):
         K = tablegen.any_table(rng)
         if rng.random() < 0.5:
